@@ -302,6 +302,9 @@ def tasks(tier, seed):
         # (the sampled files first: they are the cheaper and the more varied part, and must not be the part a time budget cuts off)
         for i, fmt in enumerate(FMTS + SAMPLED_ONLY):
             out.append(("task_sampled", dict(fmt=fmt, n=40, seed=seed * 1000 + i, max_records=20, W=20)))
+        for j in range(3):
+            # (typed VCF again, with small files: which INFO item ends a chunk matters there)
+            out.append(("task_sampled", dict(fmt="vcf-typed", n=120, seed=seed * 1000 + 500 + j, max_records=6, W=6)))
         for fmt in FMTS:
             for off in range(4):
                 out.append(("task_core", dict(fmt=fmt, widths=[1, 2], max_records=3, stride=4, offset=off)))
